@@ -139,7 +139,9 @@ I_Recreate(s, x, w, h, al, a, withAlloc) ==
               IN SetImg(s1, x, [s0.img[x] EXCEPT !.w = w, !.h = h, !.lay = al])
          ELSE I_Destroy(I_SwapWith(I_Create(s0, T, w, h, al, a), x, T), T)
 \* the same call when the allocation of the temporary fails: _align_in_bytes is already overwritten
-I_RecreateFailed(s, x, al) == SetImg(s, x, [s.img[x] EXCEPT !.align = al])
+\* a recreate whose allocation throws leaves the image as it was, including the recorded alignment (the pinned tree recorded the
+\* requested alignment before allocating, so that a later recreate with the same arguments returned early without realigning: fixed)
+I_RecreateFailed(s, x, al) == s
 I_RecreateAllocates(s, x, w, h, al, a, withAlloc) ==
     LET u == s.img[x] IN
     ~(u.w = w /\ u.h = h /\ u.align = al /\ (~withAlloc \/ a = u.alloc)) /\ u.cap < Needed(w, h, al) /\ Needed(w, h, al) > 0
